@@ -182,5 +182,17 @@ func contract_normalizePaths(paths []string) (r []string) {
 	// ascending, and no path is covered by its predecessor (hence strictly ascending:
 	// lemma_StrictFromNotCovered; hence prefix-free: lemma_CoveredInterval)
 	ensures(forall(1, len(r), func(k int) bool { return !specLess(r[k], r[k-1], 0) && !specPrefix(r[k], r[k-1]) }))
+	// NOT under contract: "every input path is covered by a result path and every result path is
+	// an input path". These are forall-exists statements; with them as loop invariants the step
+	// obligations did not discharge reliably (solver instability), so they are not claimed.
 	return
+}
+
+// The four cases of Intersect's merge step are exhaustive (so each step advances a cursor).
+//
+//@ props C44
+//@ mode int
+func lemma_IntersectCasesExhaustive(s1, s2 string) {
+	lemma_LessTotal(s1, s2, 0)
+	ensures(specPrefix(s1, s2) || specPrefix(s2, s1) || specLess(s1, s2, 0) || specLess(s2, s1, 0))
 }
